@@ -454,7 +454,12 @@ func (evm *EVM) create(caller ContractRef, codeAndHash *codeAndHash, gas uint64,
 	// by the error checking condition below.
 	if err == nil && !maxCodeSizeExceeded {
 		createDataGas := uint64(len(ret)) * params.CreateDataGas
-		if contract.UseGas(createDataGas) {
+		// Like every other cost the code deposit is charged to the transaction's
+		// budget: contract.Gas is only what the caller passed along and is not what
+		// execution is metered against, so a create below a call with a small gas
+		// operand (or after a failed inner create) lost its code although the
+		// budget was far from used up.
+		if useGas(&evm.gasLeft, createDataGas) {
 			evm.StateDB.SetCode(address, ret)
 		} else {
 			err = ErrCodeStoreOutOfGas
